@@ -433,6 +433,11 @@ class Gen:
 
     def string_body(self, mode):
         x = self.r.random()
+        later = [nm for nm in self.names[self.cur_i + 1:]]
+        if later and self.coin(0.12):
+            # "All field declarations will be ignored" in @string rules - including override fields
+            ts = self.r.sample(later + ["char"], min(len(later) + 1, self.r.randint(1, 3)))
+            return Cho([Seq(([self.lit_nonempty()] if self.coin(0.3) else []) + [Ref(t, "@", False)]) for t in ts])
         if x < 0.4:
             rg = self.rng()
             return Cho([Seq([Clo(Cho([Seq([rg])]), True)])])
